@@ -77,3 +77,11 @@ package writeaheadlog
 //@   maypanic
 //@   at loopback 1
 //@     before[each_log_file_is_listed_with_the_stat_read_from_it] !res(HasSuffix, 1) || (len(wal.logFiles) > 0 && wal.logFiles[len(wal.logFiles)-1] == res(readLogFile, 1, 0) && res(readLogFile, 1, 2) == nil)
+
+// "Restart never appends to an old file": inside this package a file is opened for writing in one place only — rotate,
+// with O_CREATE|O_EXCL|O_WRONLY (see its contract) — so neither reading a directory back nor anything else can make an
+// existing log file the write target again.
+//@ structural pkgcallersonly os.OpenFile in (*WriteAheadLog).rotate : an existing log file (possibly with a torn tail) is never written to again
+//@   property C11 C12
+//@ structural pkgcallersonly os.Create in : log files are created by rotate only
+//@   property C11 C12
